@@ -96,6 +96,7 @@ pub fn kh_canon_cycles(s: &mut Src) -> R {
     let plain = s.small(0, 2) == 0;
     let rot = s.small(0, 5) as usize;
     let relabel = s.u64();
+    let (kink, kink_pos) = (s.small(0, 6) as usize, s.small(0, 6) as usize);
     reach!();
     // PD codes need not be numbered along the strand, and the first crossing need not carry the least label: relabel the edges by a
     // pseudo-random injection into 0..40 and rotate the crossing list
@@ -103,8 +104,25 @@ pub fn kh_canon_cycles(s: &mut Src) -> R {
     let mut map: Vec<usize> = (0..41).collect();
     let mut st = relabel | 1;
     for k in (1..41).rev() { st ^= st << 13; st ^= st >> 7; st ^= st << 17; map.swap(k, (st % (k as u64 + 1)) as usize); }
-    let code: Vec<[usize; 4]> = (0..n_x).map(|k| codes[which][(k + rot) % n_x].map(|e| if plain { e } else { map[e] })).collect();
+    let mut code: Vec<[usize; 4]> = (0..n_x).map(|k| codes[which][(k + rot) % n_x].map(|e| if plain { e } else { map[e] })).collect();
+    // optionally a Reidemeister-I kink on one edge, smoothed again before the complex is built: the diagram then has an already-resolved
+    // entry among its crossings (the library supports that; positions in the list and positions among the real crossings differ)
+    if kink > 0 {
+        // PD codes are oriented: slot 0 of a crossing is its incoming under-strand.  The kink [e, a, a, b] is traversed e -> a -> b, so it is
+        // spliced in front of the crossing that e ENTERS at slot 0 (any other splice point would need the orientation of the over-strand)
+        let k = (kink - 1) % n_x;
+        let e = code[k][0];
+        let (a, b) = (if plain { 2 * n_x + 1 } else { 41 }, if plain { 2 * n_x + 2 } else { 42 });
+        code[k][0] = b;
+        code.insert(kink_pos % (n_x + 1), [e, a, a, b]);
+    }
     let mut l = Link::from_pd_code(code);
+    if kink > 0 {
+        let idx = kink_pos % (n_x + 1);
+        let l0 = l.resolved_at(idx, yui::bitseq::Bit::Bit0);
+        l = if l0.components().len() == 1 { l0 } else { l.resolved_at(idx, yui::bitseq::Bit::Bit1) };
+        pre!(l.components().len() == 1);
+    }
     if mirror { l = l.mirror(); }
     let c = KhComplex::<i64>::new(&l, &h, &0, reduced);
     let zs = c.canon_cycles();
